@@ -91,6 +91,7 @@ type GWConfig struct {
 	RawYAML   string // when set, used verbatim instead of the generated YAML (port substituted for {{PORT}})
 	NoFile    bool   // do not pass a config file at all (environment only)
 	ExpectExit bool  // start-up refusal expected: do not treat exit as failure
+	TmpDir     string // TMPDIR of the process (default: a private directory)
 }
 
 func BoolP(b bool) *bool     { return &b }
@@ -303,7 +304,7 @@ func (l *Lab) startGatewayOnce(cfg *GWConfig) (*GW, error, bool) {
 	cmd.Stderr = logf
 	env := []string{
 		"PATH=" + os.Getenv("PATH"), "HOME=" + dir,
-		"TMPDIR=" + filepath.Join(dir, "tmp"),
+		"TMPDIR=" + tmpDirOf(cfg, dir),
 		"RDPGW_VERIF_EVENTS=" + g.EvPath,
 		"RDPGW_VERIF_DEBUG=" + g.DbgAddr,
 		fmt.Sprintf("RDPGW_VERIF_SEED=%d", l.Seed),
@@ -345,6 +346,12 @@ func (l *Lab) startGatewayOnce(cfg *GWConfig) (*GW, error, bool) {
 		c, err := net.DialTimeout("tcp", g.Addr, 200*time.Millisecond)
 		if err == nil {
 			c.Close()
+			// the listener must belong to this process: it is still running
+			select {
+			case <-g.exited:
+				continue
+			default:
+			}
 			return g, nil, false
 		}
 		if time.Now().After(deadline) {
@@ -753,4 +760,11 @@ func (g *GW) StraceConnects() []ConnectCall {
 		}
 	}
 	return out
+}
+
+func tmpDirOf(cfg *GWConfig, dir string) string {
+	if cfg.TmpDir != "" {
+		return cfg.TmpDir
+	}
+	return filepath.Join(dir, "tmp")
 }
